@@ -89,6 +89,15 @@ pub struct Ns {
     opt: Option<u64>,
 }
 
+/// an account type whose discriminant is the all-ZERO pattern (a u8 discriminant with value 0): a persisted account of this
+/// type is initialised data like any other, not an "allocated but not yet initialised" one
+#[derive(ProgramAccount, BorshSerialize, BorshDeserialize, Debug, Default, Clone, PartialEq)]
+#[program_account(skip_idl, program = PB, discriminant = 0u8)]
+#[borsh(crate = "star_frame::borsh")]
+pub struct Zd {
+    vec: Vec<u8>,
+}
+
 /// a value with non-canonical accepted encodings: borsh reads the elements in any order (and with duplicates)
 /// and writes them ascending
 #[derive(ProgramAccount, BorshSerialize, BorshDeserialize, Debug, Default, Clone, PartialEq)]
@@ -139,6 +148,20 @@ impl Val for Fx {
 impl Val for Bv {
     fn of_ints(c: &mut Cur) -> Self {
         Bv { vec: rd_bytes(c) }
+    }
+    fn to_ints(&self, out: &mut Vec<i128>) {
+        wr_bytes(&self.vec, out);
+    }
+    fn mut3(acc: &mut BorshAccount<Self>, x: i128) {
+        acc.vec.push(x as u8);
+    }
+    fn mut4(acc: &mut BorshAccount<Self>, x: i128) {
+        acc.vec.truncate(x as usize);
+    }
+}
+impl Val for Zd {
+    fn of_ints(c: &mut Cur) -> Self {
+        Zd { vec: rd_bytes(c) }
     }
     fn to_ints(&self, out: &mut Vec<i128>) {
         wr_bytes(&self.vec, out);
@@ -401,6 +424,7 @@ fn main() {
             2 => run::<St>(&mut cur),
             3 => run::<Ns>(&mut cur),
             4 => run::<Sb>(&mut cur),
+            5 => run::<Zd>(&mut cur),
             _ => vec![-2],
         };
         o.line(id, &obs);
